@@ -49,7 +49,7 @@ func init() {
 		RealCode:     []string{"all of autodiff (statistics/**, generic EM and Baum-Welch, scalar/vector estimators and distributions), unmodified", "from the pool: public API, job groups, error map, job-group counter, all mutexes"},
 		Stubs:        []string{"the pool's job channel, worker goroutine scheduling and WaitGroup.Wait (sim/simpool, a fork of github.com/pbenner/threadpool swapped in by a replace directive)"},
 		Caps:         map[string]int{"threads": 6, "buffer": 8, "scheduler_steps": 20000, "em_steps": 5, "records": 5},
-		QuickRuns:    3000,
+		QuickRuns:    24000,
 		ThoroughRuns: 300000,
 		Isolated:     true,
 	})
@@ -72,7 +72,7 @@ func init() {
 		RealCode:     []string{"estimators, distributions, EM and Baum-Welch drivers, hooks"},
 		Stubs:        []string{"the pool's scheduling (sim/simpool)"},
 		Caps:         map[string]int{"threads": 6, "em_steps": 5, "observations": 40},
-		QuickRuns:    3000,
+		QuickRuns:    24000,
 		ThoroughRuns: 300000,
 		Isolated:     true,
 	})
